@@ -101,7 +101,7 @@ Spec == Init /\ [][Next]_vars
 Done == pc = "done"
 
 \* C01/C03/C04/C06/C07: every entry point computes the declarative outcome
-MeetsDeclarative == Done => out = DeclCall(D, ep, inp, MEnv, CodeNanPolicy)
+MeetsDeclarative == Done => DeclOK(D, ep, inp, MEnv, CodeNanPolicy, out)
 
 \* the function form of the operational model equals the step form
 FunctionFormAgrees == Done => out = OpCall(D, ep, inp, MEnv)
